@@ -72,15 +72,14 @@ theorem present_step {s : Tracker σ} (hi : Inv s) {u loc : σ} {E : Int} (hp : 
   | msg m =>
     simp only [Ev.wf] at hw
     simp only [Ev.names, Bool.or_eq_false_iff, decide_eq_false_iff_not] at hn
-    have key : m.kind ≠ .byebye → ∀ s', ((s' = s ∧ m.sighting? = none) ∨ (s' = purge s m.ts ∧ m.sighting? = none) ∨
+    have key : m.kind ≠ .byebye → ∀ s', ((s' = s ∧ m.sighting? = none) ∨
         ∃ u' loc' d nl d', seeDevice ipv s m = ((seeDevice ipv s m).1, some (u', d, nl)) ∧
           m.sighting? = some (u', loc') ∧ d'.validTo = d.validTo ∧ d'.locs = d.locs ∧
           s' = ⟨set (seeDevice ipv s m).1.devices u' d', (seeDevice ipv s m).1.next⟩) → Present s' u loc E := by
       intro hk s' H
       have htm : m.ts ≤ E := ht (by simp [Ev.purges, hk])
-      rcases H with ⟨h, _⟩ | ⟨h, _⟩ | ⟨u', loc', d, nl, d', hsd, hsi, _, _, hs'⟩
+      rcases H with ⟨h, _⟩ | ⟨u', loc', d, nl, d', hsd, hsi, _, _, hs'⟩
       · rw [h]; exact hp
-      · rw [h]; exact present_purge hp _ htm
       · have hne : u' ≠ u := by
           have h2 := hn.2; rw [hsi] at h2; simpa using h2
         obtain ⟨_, _, _, _, _, hsd1⟩ := seeDevice_dev ipv s m _ u' d nl hsd
@@ -109,14 +108,13 @@ theorem present_sight {s : Tracker σ} (hi : Inv s) (m : Msg σ) (hw : m.wf = tr
     (hs : m.sighting? = some (u, loc)) :
     Present (step ipv skip s (.msg m)).1 u loc (m.ts + m.maxAge) := by
   obtain ⟨hu, hl, hk⟩ := sighting_fields m u loc hs
-  have key : ∀ s', ((s' = s ∧ m.sighting? = none) ∨ (s' = purge s m.ts ∧ m.sighting? = none) ∨
+  have key : ∀ s', ((s' = s ∧ m.sighting? = none) ∨
       ∃ u' loc' d nl d', seeDevice ipv s m = ((seeDevice ipv s m).1, some (u', d, nl)) ∧
         m.sighting? = some (u', loc') ∧ d'.validTo = d.validTo ∧ d'.locs = d.locs ∧
         s' = ⟨set (seeDevice ipv s m).1.devices u' d', (seeDevice ipv s m).1.next⟩) →
       Present s' u loc (m.ts + m.maxAge) := by
     intro s' H
-    rcases H with ⟨_, h⟩ | ⟨_, h⟩ | ⟨u', loc', d, nl, d', hsd, hsi, hv, hlo, hs'⟩
-    · rw [hs] at h; cases h
+    rcases H with ⟨_, h⟩ | ⟨u', loc', d, nl, d', hsd, hsi, hv, hlo, hs'⟩
     · rw [hs] at h; cases h
     · rw [hs] at hsi
       simp only [Option.some.injEq, Prod.mk.injEq] at hsi
